@@ -4,15 +4,17 @@ import Comdex.Model.LiqLedger
 
 Lines (tab separated, after `seq`):
   lq.begin   prop queueDur apps funds
-                 apps  = app:feeRate:batch:maxLife:pairFee:poolFee:minDep:minSup:maxPools;…
+                 apps  = app:feeRate:batch:maxLife:pairFee:poolFee:minDep:minSup:maxPools:tickPrec:maxPriceRatio:maxMMTicks;…
                  funds = user:coin:amt;…
   lq.block   height now
   lq.createPair app user base quote ext <outcome>
   lq.createPool app user pair ranged dx dy ammPs ext <outcome>
   lq.deposit app user pool dx dy ext <outcome>
   lq.withdraw app user pool pc ext <outcome>
-  lq.order   app user pair typ buy msgOffer msgPrice price amount lifespan ext <outcome>
-  lq.mmOrder app user pair buyTicks sellTicks lifespan ext <outcome>       tick = offer:price:amount
+  lq.order   app user pair typ buy offerDenom demandDenom msgOffer msgPrice amount lifespan <outcome>
+  lq.mmOrder app user pair maxSell minSell sellAmt maxBuy minBuy buyAmt lifespan <outcome>
+                 (the tick-fitted price, the ticks of a market-making order and the price / tick / denom validations are
+                  computed by the MODEL from the message and the pair's last price — a change to them in the code is a DIFF)
   lq.cancel  app user pair id <outcome>
   lq.cancelAll app user pairs <outcome>
   lq.cancelMM app user pair <outcome>
@@ -20,8 +22,10 @@ Lines (tab separated, after `seq`):
   lq.depositAndFarm app user pool dx dy ax ay pc ext <outcome>
   lq.unfarmAndWithdraw app user pool amt x y ext <outcome>
   lq.bb      app
+  lq.migrate <outcome>                      the REAL `Migrator.Migrate1to2` on a store re-encoded in the version-1 layout
   lq.eb      app matches deps wdrs <outcome>
-                 matches = pair/fills/flows/dust|…   fill = id:buy:paid:recv:matched   flow = pool:buy:paid:recv
+                 matches = pair/fills/flows/dust/last|…   fill = id:buy:paid:recv:matched   flow = pool:buy:paid:recv
+                           last = the pair's LastPrice after the batch (raw) or "-"
                  deps = pool:id:ax:ay:pc,…   wdrs = pool:id:x:y,…
   lq.state   bal=… pairs=… pools=… deps=… wdrs=… orders=… mm=… farm=…      (the REAL state projection)
   lq.inv     ok|broken msg                                                   (the repository's AllInvariants)
@@ -29,7 +33,8 @@ Lines (tab separated, after `seq`):
 outcome ∈ ok err panic; only ok / not-ok is compared.  At every `liq.state` line the model state is compared
 with the real projection (DIFF) and the monitors of the property named in `liq.begin` are evaluated on the REAL
 projection (MON).  Monitor names: C04 — escrow_requests pair_escrow farm_custody zero_supply_disabled
-poolcoin_supply repo_invariants; C07 — taken_exact settled_exact cancellable mm_cancel_all cancel_all_cancels_all.
+poolcoin_supply repo_invariants; C07 — taken_exact settled_exact cancellable mm_cancel_all cancel_all_cancels_all
+mm_index_complete fee_collector_exact; both — migration_identity.
 -/
 -- DRIVER: prefix=lq ns=Comdex.Drv.LiqLedger
 namespace Comdex.Drv.LiqLedger
@@ -99,11 +104,14 @@ def pBank (s : String) : Option Bank :=
       | _ => none
     | _ => none
 
+def pOptNat (s : String) : Option (Option Nat) := if s = "-" then some none else (pNat s).map some
+
 def pPairs (s : String) : Option (List Pair) :=
   (splitList s ",").mapM fun e =>
     match e.splitOn ":" with
-    | [a, i, b, q, l, bt] => do
-      pure { app := ← pNat a, id := ← pNat i, base := ← pDenom b, quote := ← pDenom q, lastOrderId := ← pNat l, curBatch := ← pNat bt }
+    | [a, i, b, q, l, bt, lp] => do
+      pure { app := ← pNat a, id := ← pNat i, base := ← pDenom b, quote := ← pDenom q, lastOrderId := ← pNat l, curBatch := ← pNat bt,
+             lastPrice := ← pOptNat lp }
     | _ => none
 
 def pPools (s : String) : Option (List Pool) :=
@@ -182,9 +190,10 @@ def pReal (f : List String) : Option State := do
 def pApps (s : String) : Option (List AppCfg) :=
   (splitList s ";").mapM fun e =>
     match e.splitOn ":" with
-    | [a, fr, b, ml, pf, plf, md, ms, mp] => do
+    | [a, fr, b, ml, pf, plf, md, ms, mp, tp, mr, mt] => do
       pure { app := ← pNat a, feeRate := ← pNat fr, batchSize := ← pNat b, maxLifespan := ← pInt ml, pairFee := ← pNat pf,
-             poolFee := ← pNat plf, minInitDeposit := ← pNat md, minInitSupply := ← pNat ms, maxPools := ← pNat mp }
+             poolFee := ← pNat plf, minInitDeposit := ← pNat md, minInitSupply := ← pNat ms, maxPools := ← pNat mp,
+             tickPrec := ← pNat tp, maxPriceRatio := ← pNat mr, maxMMTicks := ← pNat mt }
     | _ => none
 
 def pFunds (s : String) : Option (List (Nat × Nat × Nat)) :=
@@ -214,7 +223,8 @@ def pFlows (s : String) : Option (List PoolFlow) :=
 def pMatches (s : String) : Option (List MatchIn) :=
   (splitList s "|").mapM fun e =>
     match e.splitOn "/" with
-    | [p, fs, fl, d] => do pure { pair := ← pNat p, fills := ← pFills fs, pools := ← pFlows fl, dust := ← pNat d }
+    | [p, fs, fl, d, lp] => do
+      pure { pair := ← pNat p, fills := ← pFills fs, pools := ← pFlows fl, dust := ← pNat d, last := ← pOptNat lp }
     | _ => none
 
 def pDepIns (s : String) : Option (List DepIn) :=
@@ -238,10 +248,11 @@ def pOp (f : List String) : Option (Op × String) :=
     pure (.createPool (← pNat a) (← pNat u) (← pNat p) (← pBool r) (← pNat dx) (← pNat dy) (← pNat ps) (← pBool e), o)
   | ["lq.deposit", a, u, p, dx, dy, e, o] => do pure (.deposit (← pNat a) (← pNat u) (← pNat p) (← pNat dx) (← pNat dy) (← pBool e), o)
   | ["lq.withdraw", a, u, p, pc, e, o] => do pure (.withdraw (← pNat a) (← pNat u) (← pNat p) (← pNat pc) (← pBool e), o)
-  | ["lq.order", a, u, p, t, b, mo, mp, pr, am, l, e, o] => do
-    pure (.order (← pNat a) (← pNat u) (← pNat p) (← pOType t) (← pBool b) (← pNat mo) (← pNat mp) (← pNat pr) (← pNat am) (← pInt l) (← pBool e), o)
-  | ["lq.mmOrder", a, u, p, bs, ss, l, e, o] => do
-    pure (.mmOrder (← pNat a) (← pNat u) (← pNat p) (← pTicks bs) (← pTicks ss) (← pInt l) (← pBool e), o)
+  | ["lq.order", a, u, p, t, b, od, dd, mo, mp, am, l, o] => do
+    pure (.order (← pNat a) (← pNat u) (← pNat p) (← pOType t) (← pBool b) (← pDenom od) (← pDenom dd) (← pNat mo) (← pNat mp)
+            (← pNat am) (← pInt l), o)
+  | ["lq.mmOrder", a, u, p, xs, ns, sa, xb, nb, ba, l, o] => do
+    pure (.mmOrder (← pNat a) (← pNat u) (← pNat p) (← pNat xs) (← pNat ns) (← pNat sa) (← pNat xb) (← pNat nb) (← pNat ba) (← pInt l), o)
   | ["lq.cancel", a, u, p, i, o] => do pure (.cancel (← pNat a) (← pNat u) (← pNat p) (← pNat i), o)
   | ["lq.cancelAll", a, u, ps, o] => do pure (.cancelAll (← pNat a) (← pNat u) (← parseNatList ps), o)
   | ["lq.cancelMM", a, u, p, o] => do pure (.cancelMM (← pNat a) (← pNat u) (← pNat p), o)
@@ -252,6 +263,7 @@ def pOp (f : List String) : Option (Op × String) :=
   | ["lq.unfarmAndWithdraw", a, u, p, n, x, y, e, o] => do
     pure (.unfarmAndWithdraw (← pNat a) (← pNat u) (← pNat p) (← pNat n) (← pNat x) (← pNat y) (← pBool e), o)
   | ["lq.bb", a] => do pure (.beginBlock (← pNat a), "ok")
+  | ["lq.migrate", o] => some (.migrate, o)
   | ["lq.eb", a, ms, ds, ws, o] => do pure (.endBlock (← pNat a) (← pMatches ms) (← pDepIns ds) (← pWdrIns ws), o)
   | _ => none
 
@@ -480,9 +492,32 @@ def monCancelAll (cfg : Cfg) (prev cur : State) (op : Option Op) (ok : Bool) : B
       else true
   | _ => true
 
+/-- the store migration is the identity on the projection, up to the order type (→ limit) and the pool type (→ basic):
+in particular every order keeps offer / REMAINING offer / received / open amount / status / batch / expiry, no coin moves -/
+def monMigration (prev cur : State) (op : Option Op) (ok : Bool) : Bool :=
+  match op with
+  | some .migrate =>
+    ok &&
+    bankLe prev.bank cur.bank && bankLe cur.bank prev.bank &&
+    prev.pairs == cur.pairs && prev.deps == cur.deps && prev.wdrs == cur.wdrs && prev.mm == cur.mm && prev.farmers == cur.farmers &&
+    prev.orders.map (fun o => { o with typ := OType.limit }) == cur.orders.map (fun o => { o with typ := OType.limit }) &&
+    cur.orders.all (fun o => o.typ == .limit) &&
+    prev.pools.map (fun q => { q with ranged := false }) == cur.pools
+  | _ => true
+
+/-- index completeness on the REAL records: order keys are unique, and every live market-making order is listed in the
+real MM index of its owner for its (app, pair) -/
+def monIndexComplete (r : State) : Bool :=
+  (r.orders.map Order.key).eraseDups.length == r.orders.length &&
+  r.orders.all fun o => !(o.typ == .mm && o.status.live) ||
+    match findBy (isMM o.app o.pair o.owner) r.mm with
+    | none => false
+    | some idx => idx.ids.contains o.id
+
 def monitors (st : St) (cur : State) : List String :=
   let prev := st.real
   let m (name : String) (b : Bool) : List String := if b then [] else [name]
+  (if st.haveReal then m "migration_identity" (monMigration prev cur st.lastOp st.lastOk) else []) ++
   if st.prop = "C04" then
     m "escrow_requests" (monEscrowRequests cur) ++ m "pair_escrow" (monPairEscrow cur) ++ m "farm_custody" (monFarmCustody cur)
     ++ m "zero_supply_disabled" (monZeroSupply cur)
@@ -492,10 +527,12 @@ def monitors (st : St) (cur : State) : List String :=
     let placing := match st.lastOp with | some (.order ..) => true | some (.mmOrder ..) => true | _ => false
     let explained := monUsersExplained st.cfg prev cur st.lastOp st.lastOk
     m (if placing then "taken_exact" else "settled_exact") explained
-    ++ m "settled_exact" (monEscrowExact st.cfg st.s cur && monFeeFwd st.cfg prev cur)
+    ++ m "settled_exact" (monEscrowExact st.cfg st.s cur)
+    ++ m "fee_collector_exact" (monFeeFwd st.cfg prev cur)
     ++ m "cancellable" (monCancellable st.cfg prev st.lastOp st.lastOk)
     ++ m "mm_cancel_all" (monMMCancelAll prev cur st.lastOp st.lastOk)
     ++ m "cancel_all_cancels_all" (monCancelAll st.cfg prev cur st.lastOp st.lastOk)
+    ++ m "mm_index_complete" (monIndexComplete cur)
 
 /-! ### line handler -/
 
